@@ -250,7 +250,7 @@ def gen_proto_case(rng: random.Random, max_ops: int, reading0: bool) -> dict:
     calm = rng.random() < 0.6  # no close / connection loss: long data phases
     scripts: list[list[list]] = []
     for t in range(n_user):
-        role = rng.choice(["r", "r", "s", "rs"])
+        role = "r" if t == 0 else "s" if t == 1 else rng.choice(["r", "s", "rs", "x"])
         ops: list[list] = []
         for _ in range(rng.randint(2, max_ops)):
             r = rng.random()
@@ -280,6 +280,7 @@ def gen_proto_case(rng: random.Random, max_ops: int, reading0: bool) -> dict:
     for _ in range(rng.randint(3, 2 * max_ops)):
         r = rng.random()
         if r < 0.45:
+            env += [["yield"]] * rng.choice([0, 1, 1, 2])
             env.append(["data", rng.choice([1, 1, 2, 3, 4, 6, 9, 14])])
         elif r < 0.70:
             env.append(["yield"])
@@ -1069,7 +1070,7 @@ def gen_real_cases(rng: random.Random, tier: str) -> list[dict]:
     for kind in ("tcp", "unix"):
         for uv in (False, True):
             base = {"leg": "real", "kind": kind, "uvloop": uv}
-            reps = 6 if thorough else 1
+            reps = 6 if thorough else 2
             for _ in range(reps):
                 # small messages, every small max_bytes
                 sizes = [rng.choice([1, 1, 2, 3, 10, 100, 1000]) for _ in range(rng.randint(5, 25))]
@@ -1145,11 +1146,14 @@ def flush_unix(lines: list[str], pend: list, res: Result) -> None:
     if not lines:
         return
     replies = run_model("sock", lines)
+    ok_by_case: dict[int, bool] = {}
     for (case, what, exp), got in zip(pend, replies):
         if exp != got:
             res.disagreements.append(Disagreement(case, f"{what}: implementation {exp!r}, model {got!r}"))
+            ok_by_case[id(case)] = False
         else:
-            res.traces_validated += 1
+            ok_by_case.setdefault(id(case), True)
+    res.traces_validated += sum(1 for v in ok_by_case.values() if v)
 
 
 def do_real(case: dict, res: Result) -> None:
@@ -1193,7 +1197,7 @@ def run(ctx: Ctx) -> Result:
     # --- real sockets first (they carry the back-pressure part of the property)
     if focus in (None, "real"):
         cases = gen_real_cases(ctx.rng, ctx.tier)
-        budget = 30 if ctx.tier == "quick" else 420
+        budget = 28 if ctx.tier == "quick" else 420
         t0 = time.time()
         for c in cases:
             if time.time() - t0 > budget or ctx.time_left() < 15:
@@ -1202,7 +1206,7 @@ def run(ctx: Ctx) -> Result:
             do_real(c, res)
     # --- protocol leg
     if focus in (None, "proto"):
-        n = ctx.n(500, 12000)
+        n = ctx.n(1200, 15000)
         mo = 8 if ctx.tier == "quick" else 12
         cases = [gen_proto_case(ctx.rng, mo, reading0["accept"] if i % 2 else reading0["connect"])
                  for i in range(n)]
